@@ -539,7 +539,8 @@ Op("util", _gen_util, _impl_util, _coq_util)
 from scoda.tokenisation.notelike_tokenisation import MultiTrackLargeVocabularyNotelikeTokeniser as Tokeniser
 import math
 
-TOK_SIGS = [(4, 4), (3, 4), (2, 4), (6, 8), (5, 8), (2, 2), (12, 8), (3, 16), (7, 8), (9, 16), (8, 8), (2, 8)]
+TOK_SIGS = [(4, 4), (3, 4), (2, 4), (6, 8), (5, 8), (2, 2), (12, 8), (3, 16), (7, 8), (9, 16), (8, 8), (2, 8),
+            (4, 2), (2, 1), (8, 4), (16, 8), (1, 4), (4, 16), (4, 2), (16, 8)]   # both ends of the signature range (2 and 16 eighths)
 
 
 def gen_cfg(r, small=True, valid_bins=False):
@@ -547,7 +548,7 @@ def gen_cfg(r, small=True, valid_bins=False):
     pr = r.choice([(60, 64), (58, 66), (60, 61), (21, 108)] if not small else [(60, 64), (58, 66), (60, 61), (60, 72)])
     steps = r.choice([None, None, None, [12, 24], [6, 12, 24], [2, 4, 8, 16], [3, 6, 12, 24, 48], [24]])
     values = r.choice([None, None, None, [12, 24], [6, 12, 24, 48], [4, 8, 16], [24]])
-    nb = r.choice([1, 1, 2, 3, 4, 5, 8, 8, 16, 127] + ([] if valid_bins else [100, 128, 60]))
+    nb = r.choice([1, 1, 2, 3, 4, 5, 8, 8, 16, 127, 7, 12] + ([] if valid_bins else [100, 128, 60, 19, 23, 64]))
     flags = tuple(r.random() < 0.5 for _ in range(5))   # running, fuse_track, fuse_value, fuse_velocity, simplify
     size = (nt if flags[1] else 1) * (pr[1] - pr[0] + 1) * ((len(values) if values else 9) if flags[2] else 1) * \
         (nb if flags[3] else 1)
@@ -742,8 +743,15 @@ def _impl_stateful(inp):
         try:
             toks = t.tokenise(seqs, state_dict=sd)
         except Exception as e:
-            return out + show_exc(e)
+            out += show_exc(e)
+            break
         out += " ".join(toks) + "#" + show_state(sd) + "$"
+    # the other side of the property: the whole piece in ONE call, without a state dictionary
+    try:
+        whole = t.tokenise([Bar.to_sequence(tb) for tb in _bars_of(tracks)])
+        out += "%" + " ".join(whole)
+    except Exception as e:
+        out += "%" + show_exc(e)
     return out
 
 
@@ -757,7 +765,8 @@ def _coq_stateful(inp):
     return (f"(match split_bars {lit_msgss(tracks)} (to_abs {lit_msgs(tracks[0])}) true with "
             f"| Err e => \"!\" ++ show_err e "
             f"| Ok bars => tokenise_calls {lit_cfg(cfg)} (tstate0 {lit_cfg(cfg)}) "
-            f"(map (fun ab : nat * nat => map (fun tb : list bar => concat (map b_rel (firstn (snd ab - fst ab) (skipn (fst ab) tb)))) bars) {cuts}) end)")
+            f"(map (fun ab : nat * nat => map (fun tb : list bar => concat (map b_rel (firstn (snd ab - fst ab) (skipn (fst ab) tb)))) bars) {cuts}) "
+            f"++ \"%\" ++ tokenise_ns {lit_cfg(cfg)} (map (fun tb : list bar => concat (map b_rel tb)) bars) end)")
 
 
 Op("tok_stateful", _gen_stateful, _impl_stateful, _coq_stateful)
@@ -769,12 +778,42 @@ def _gen_stream(r):
     keys = list(t.dictionary.keys())
     notes = [k for k in keys if "pit" in k]
     rests = [k for k in keys if k.startswith("rst")]
+    tsgs = [k for k in keys if k.startswith("tsg")]
     others = [k for k in keys if "pit" not in k and not k.startswith("rst")]
-    n = r.randint(0, 14)
     toks = []
-    for _ in range(n):
-        x = r.random()
-        toks.append(r.choice(notes) if x < 0.4 else r.choice(rests) if x < 0.65 else r.choice(others))
+    if r.random() < 0.5:
+        n = r.randint(0, 14)
+        for _ in range(n):
+            x = r.random()
+            toks.append(r.choice(notes) if x < 0.4 else r.choice(rests) if x < 0.65 else r.choice(others))
+    else:
+        # structured streams: bars filled exactly / overfull / partly by rests, signature tokens right before or after
+        # the bar token, notes in between (what a generative model typically emits)
+        steps = sorted(int(k.split("_")[1]) for k in rests)
+        cap = 96
+        for _ in range(r.randint(1, 4)):
+            fill = r.choice([cap, cap, cap - steps[0], cap + steps[0], cap // 2, 0])
+            left = fill
+            while left > 0:
+                cands = [s_ for s_ in steps if s_ <= left] or [steps[0]]
+                s_ = r.choice(cands[-2:])
+                toks.append(f"rst_{s_:02}")
+                left -= s_
+                if r.random() < 0.25:
+                    toks.append(r.choice(notes))
+            order = r.choice(["tsg-bar", "bar-tsg", "bar", "tsg", "none"])
+            tk = r.choice(tsgs)
+            if order == "tsg-bar":
+                toks += [tk, "bar"]
+            elif order == "bar-tsg":
+                toks += ["bar", tk]
+                cap = 12 * int(tk.split("_")[1])
+            elif order == "bar":
+                toks.append("bar")
+            elif order == "tsg":
+                toks.append(tk)
+            if r.random() < 0.6:
+                toks.append(r.choice(notes))
     return cfg, toks
 
 
